@@ -136,6 +136,7 @@ class Sim:
         self.save_hooks = []  # callables(sim, ds, slot, path) run after every successful save
         self.observed = set()
         self.touched = None
+        self.grid_prefix = self.cfg.get("grid_prefix", "C03")
 
     # ---- helpers ---------------------------------------------------------------------------------
     def probe(self, name: str, n: int = 1) -> None:
@@ -254,11 +255,12 @@ class Sim:
 
     def check_table(self, table, tm: TableM, where: str, after: str, reopened: bool) -> None:
         sfx = "reopen_equals_model" if reopened else None
+        P = self.grid_prefix
         data = table.rows()
         nr, nc = tm.nrows, tm.ncols
         if table.num_rows != nr or table.num_cols != nc or len(data) != nr or any(len(r) != nc for r in data):
             got_cols = sorted({len(r) for r in data})
-            self.violation(f"C03.{sfx or 'dims'}", {"what": "dims", "after": after},
+            self.violation(f"{P}.{sfx or 'dims'}", {"what": "dims", "after": after},
                            f"{where}: library {table.num_rows}x{table.num_cols} (grid {len(data)} rows, widths {got_cols}); model {nr}x{nc}")
         merges_on = "merges" in self.aspects and not tm.merge_unspecified
         placeholder = {}
@@ -279,7 +281,7 @@ class Sim:
                 exp = mrow[c]
                 cls = type(cell).__name__
                 if cell.row != r or cell.col != c:
-                    self.violation(f"C03.{sfx or 'positions'}", {"what": "position", "after": after},
+                    self.violation(f"{P}.{sfx or 'positions'}", {"what": "position", "after": after},
                                    f"{where}: cell at [{r},{c}] reports ({cell.row},{cell.col})")
                 if merges_on and (r, c) in placeholder:
                     self.check_placeholder(cell, placeholder[(r, c)], where, r, c, after, reopened)
@@ -296,7 +298,7 @@ class Sim:
                     ok = cls == want and V.typed_eq(exp, cell.value)
                 if not ok:
                     kind = "class" if cls != want else "value"
-                    self.violation(f"C03.{sfx or 'values'}", {"what": kind, "want": want, "got": cls, "after": after},
+                    self.violation(f"{P}.{sfx or 'values'}", {"what": kind, "want": want, "got": cls, "after": after},
                                    f"{where} [{r},{c}]: library {cls}({V.short(cell.value)}), model {want}({V.short(exp.value if isinstance(exp, Opaque) else exp)})")
                 if merges_on:
                     self.check_anchor(cell, anchors.get((r, c)), where, r, c, after, reopened)
